@@ -631,6 +631,19 @@ class DefaultCodec(Codec):
             # build a dict of key to result type
             index = dict()  # type: Dict[str, _ResultTypeAndContentKey]
 
+            # A partition that was read back from the store and is stored again as it is (a
+            # function hands on what another one returned) keeps the entries it inherited from
+            # its parents: its own listing only covers the entries that are not from a parent.
+            if isinstance(obj, DefaultCodec.PicklePartition):
+                # noinspection PyProtectedMember
+                for k, v in obj._index.items():
+                    if v.from_parent:
+                        # noinspection PyProtectedMember
+                        data_source.reference(
+                            obj._data_source, v.content_key, v.content_key
+                        )
+                        index[k] = v
+
             # If a merge parent is set, merge index with parent:
             # noinspection PyProtectedMember
             merge_parent = obj._merge_parent
